@@ -51,7 +51,12 @@ namespace
 void vf::run_case(Src &s, Ctx &c)
 {
     const auto &R = registry();
-    const PlannerInfo &pi = R[s.pick(R.size())];
+    size_t pidx = s.pick(R.size());
+    // exploration aid (never set by ./check): sweep one planner, e.g. VF_FORCE_PLANNER=FMT ./check C03
+    if (const char *fp = std::getenv("VF_FORCE_PLANNER"))
+        if (findPlanner(fp) >= 0)
+            pidx = (size_t)findPlanner(fp);
+    const PlannerInfo &pi = R[pidx];
     c.context(pi.name);
     unsigned seed = 1 + (unsigned)s.u(0, 1000000);
     ompl::RNG::setSeed(seed);
@@ -157,6 +162,10 @@ void vf::run_case(Src &s, Ctx &c)
     c.count(std::string("planner:") + pi.name);
 
     ob::PlannerPtr pl = pi.make(P->si);
+    // FMT / BFMT spend their first num_samples evaluations on drawing the sample batch (default 1000): within the history budgets they would
+    // almost never get past it, and everything after their first solution would stay unexplored. The batch size follows the already decoded seed.
+    if (std::string(pi.name) == "FMT" || std::string(pi.name) == "BFMT")
+        pl->params().setParam("num_samples", std::to_string(60 + seed % 240));
     const std::string pkey = std::string("/") + pi.name;
     int cur = 0;
     pointAt(cur);
@@ -178,6 +187,127 @@ void vf::run_case(Src &s, Ctx &c)
         c.count("outcome:setup-rejected");
         throw Skip{std::string("setup rejected: ") + e.what()};
     }
+    // one solve() whose termination condition first fires at evaluation k, and everything that is judged after it
+    auto solveStep = [&](long k, int stp)
+    {
+        CountPTC ptc(&c);
+        ptc.limit = k;
+        // a quarter of the resumed solves are preceded by the caller dropping the stored paths (decided by the already decoded k, so
+        // that saved cases keep their meaning): the status of the resumed solve must still describe what the pdef then holds
+        if (solvedBefore && k % 4 == 1)
+        {
+            c.note("clearSolutionPaths ");
+            c.count("history:clearSolutionPaths-before-resume");
+            Q[cur].pdef->clearSolutionPaths();
+            havePrev = false;
+        }
+        c.note("solve(k=%ld) ", k);
+        size_t before = Q[cur].pdef->getSolutionCount();
+        ob::PlannerStatus st;
+        try
+        {
+            st = pl->solve(ptc.make());
+        }
+        catch (const ompl::Exception &e)
+        {
+            c.note("[exception: %s] ", e.what());
+            if (Q[cur].pdef->getSolutionCount() > before)
+                c.failOrKnown("C03/exception-after-solution" + pkey, vf::fmt("%s threw '%s' out of solve() after reporting a solution", pi.name, e.what()));
+            c.count("outcome:exception");
+            st = ob::PlannerStatus::ABORT;
+            // the planner's state after an exception is unspecified: clear before going on
+            pl->clear();
+            solvedBefore = false;
+            havePrev = false;
+            return;
+        }
+        long calls = ptc.calls->load();
+        long after = calls - k - 1;
+        c.note("-> %s [%ld evals] ", statusName(st), calls);
+        c.stat(std::string("evaluations-after-fire:") + (pi.threaded ? "threaded" : "single"), (double)std::max(0L, after));
+        VCHECK(c, after <= afterFireBound(pi), "C03/late-return" + pkey, "%s evaluated the termination condition %ld more times after it first fired (bound %ld)", pi.name,
+               after, afterFireBound(pi));
+        size_t nsol = Q[cur].pdef->getSolutionCount();
+        bool solvedStatus = st == ob::PlannerStatus::EXACT_SOLUTION || st == ob::PlannerStatus::APPROXIMATE_SOLUTION;
+        const bool resumed = solvedBefore;
+        if (!resumed)
+        {
+            // first solve of this query on a fresh or cleared planner: full C01 coherence
+            if (before == 0)
+            {
+                VCHECK(c, solvedStatus == (nsol > 0), "C03/status-pdef-mismatch" + pkey, "%s returned %s but the problem definition holds %zu solution(s)", pi.name,
+                       statusName(st), nsol);
+            }
+            if (st == ob::PlannerStatus::INVALID_START || st == ob::PlannerStatus::INVALID_GOAL || st == ob::PlannerStatus::UNRECOGNIZED_GOAL_TYPE)
+            {
+                bool okPSBL = std::string(pi.name) == "pSBL" && P->goalKind != 0 && st == ob::PlannerStatus::UNRECOGNIZED_GOAL_TYPE;
+                if (!okPSBL)
+                    c.failOrKnown("C03/untruthful-status" + pkey, vf::fmt("%s answered %s to a valid query (%s)", pi.name, statusName(st),
+                                                                          stp == 0 ? "first solve" : "after clear / new problem definition"));
+            }
+        }
+        else
+        {
+            if (solvedStatus)
+                VCHECK(c, nsol > 0, "C03/status-pdef-mismatch" + pkey, "%s returned %s on a resumed solve but the problem definition is empty", pi.name, statusName(st));
+            if (st == ob::PlannerStatus::EXACT_SOLUTION)
+                VCHECK(c, Q[cur].pdef->hasExactSolution(), "C03/exact-status-without-exact-solution" + pkey, "%s returned EXACT_SOLUTION but the best stored solution is approximate",
+                       pi.name);
+        }
+        VCHECK(c, st != ob::PlannerStatus::CRASH, "C03/status-CRASH" + pkey, "%s returned CRASH", pi.name);
+        if (nsol > 0)
+        {
+            auto *pg = dynamic_cast<og::PathGeometric *>(Q[cur].pdef->getSolutionPath().get());
+            VCHECK(c, pg && pg->getStateCount() > 0, "C03/empty-path" + pkey, "%s: reported solution is empty", pi.name);
+            const ob::State *last = pg->getState(pg->getStateCount() - 1);
+            bool approx = Q[cur].pdef->hasApproximateSolution();
+            if (!approx && !Q[cur].pdef->getGoal()->isSatisfied(last))
+                c.failOrKnown("C03/half-built-path" + pkey, vf::fmt("%s: solution not flagged approximate but its last state does not satisfy the goal (%zu states)", pi.name,
+                                                                    pg->getStateCount()));
+            if (pg->getStateCount() == 1 && !approx)
+                VCHECK(c, Q[cur].pdef->getGoal()->isSatisfied(last), "C03/one-state-solution" + pkey, "%s: 1-state solution whose state is not a goal", pi.name);
+            PathVerdict v = checkPath(*P, *pg, pi.strictRecheck, true);
+            if (!v.ok())
+                c.failOrKnown("C03/" + v.key + pkey, vf::fmt("%s after history step %d: %s", pi.name, stp, v.msg.c_str()));
+            // clear forgets: no state of the path may be a start/goal of the other query
+            int other = 1 - cur;
+            for (size_t i = 0; i < pg->getStateCount(); ++i)
+                if (P->ps.space->equalStates(pg->getState(i), Q[other].start) || P->ps.space->equalStates(pg->getState(i), Q[other].goal))
+                {
+                    // after clearQuery a roadmap may legitimately keep old query states as ordinary vertices, but never as an endpoint
+                    bool endpoint = i == 0 || i + 1 == pg->getStateCount();
+                    if (endpoint || cleanSinceQueryChange)
+                        c.failOrKnown("C03/stale-state" + pkey, vf::fmt("%s: path state %zu of %zu is a start/goal state of the previous query", pi.name, i,
+                                                                        pg->getStateCount()));
+                }
+            // resume monotonicity
+            double len = pg->length();
+            double diff = approx ? Q[cur].pdef->getSolutionDifference() : 0;
+            if (resumed && havePrev)
+            {
+                if (prevExact)
+                {
+                    VCHECK(c, !approx, "C03/resume-lost-exact" + pkey, "%s: the query had an exact solution, after another solve() the best one is approximate", pi.name);
+                    if (pi.optimizing)
+                        VCHECK(c, len <= prevLen * (1 + 1e-9) + 1e-9, "C03/resume-worse" + pkey, "%s: best solution length grew from %.9g to %.9g on a resumed solve", pi.name,
+                               prevLen, len);
+                }
+                else if (approx)
+                    VCHECK(c, diff <= prevDiff * (1 + 1e-9) + 1e-9, "C03/resume-worse" + pkey, "%s: best approximate difference grew from %.9g to %.9g on a resumed solve",
+                           pi.name, prevDiff, diff);
+            }
+            prevExact = !approx;
+            prevLen = len;
+            prevDiff = diff;
+            havePrev = true;
+        }
+        if (pendingInterrupt)
+            sawInterruptThenResumeOrClear = true;
+        pendingInterrupt = calls > 1 && !Q[cur].pdef->hasExactSolution();
+        if (pendingInterrupt)
+            interruptedBeforeSolution = true;
+        solvedBefore = true;
+    };
     int steps = s.in(1, 7);
     for (int stp = 0; stp < steps && !s.exhausted(); ++stp)
     {
@@ -201,123 +331,7 @@ void vf::run_case(Src &s, Ctx &c)
                     default:
                         k = (long)(std::exp(s.real(0, std::log(2500.0))) * pi.budgetScale);
                 }
-                CountPTC ptc(&c);
-                ptc.limit = k;
-                // a quarter of the resumed solves are preceded by the caller dropping the stored paths (decided by the already decoded k, so
-                // that saved cases keep their meaning): the status of the resumed solve must still describe what the pdef then holds
-                if (solvedBefore && k % 4 == 1)
-                {
-                    c.note("clearSolutionPaths ");
-                    c.count("history:clearSolutionPaths-before-resume");
-                    Q[cur].pdef->clearSolutionPaths();
-                    havePrev = false;
-                }
-                c.note("solve(k=%ld) ", k);
-                size_t before = Q[cur].pdef->getSolutionCount();
-                ob::PlannerStatus st;
-                try
-                {
-                    st = pl->solve(ptc.make());
-                }
-                catch (const ompl::Exception &e)
-                {
-                    c.note("[exception: %s] ", e.what());
-                    if (Q[cur].pdef->getSolutionCount() > before)
-                        c.failOrKnown("C03/exception-after-solution" + pkey, vf::fmt("%s threw '%s' out of solve() after reporting a solution", pi.name, e.what()));
-                    c.count("outcome:exception");
-                    st = ob::PlannerStatus::ABORT;
-                    // the planner's state after an exception is unspecified: clear before going on
-                    pl->clear();
-                    solvedBefore = false;
-                    havePrev = false;
-                    continue;
-                }
-                long calls = ptc.calls->load();
-                long after = calls - k - 1;
-                c.note("-> %s [%ld evals] ", statusName(st), calls);
-                c.stat(std::string("evaluations-after-fire:") + (pi.threaded ? "threaded" : "single"), (double)std::max(0L, after));
-                VCHECK(c, after <= afterFireBound(pi), "C03/late-return" + pkey, "%s evaluated the termination condition %ld more times after it first fired (bound %ld)", pi.name,
-                       after, afterFireBound(pi));
-                size_t nsol = Q[cur].pdef->getSolutionCount();
-                bool solvedStatus = st == ob::PlannerStatus::EXACT_SOLUTION || st == ob::PlannerStatus::APPROXIMATE_SOLUTION;
-                const bool resumed = solvedBefore;
-                if (!resumed)
-                {
-                    // first solve of this query on a fresh or cleared planner: full C01 coherence
-                    if (before == 0)
-                    {
-                        VCHECK(c, solvedStatus == (nsol > 0), "C03/status-pdef-mismatch" + pkey, "%s returned %s but the problem definition holds %zu solution(s)", pi.name,
-                               statusName(st), nsol);
-                    }
-                    if (st == ob::PlannerStatus::INVALID_START || st == ob::PlannerStatus::INVALID_GOAL || st == ob::PlannerStatus::UNRECOGNIZED_GOAL_TYPE)
-                    {
-                        bool okPSBL = std::string(pi.name) == "pSBL" && P->goalKind != 0 && st == ob::PlannerStatus::UNRECOGNIZED_GOAL_TYPE;
-                        if (!okPSBL)
-                            c.failOrKnown("C03/untruthful-status" + pkey, vf::fmt("%s answered %s to a valid query (%s)", pi.name, statusName(st),
-                                                                                  stp == 0 ? "first solve" : "after clear / new problem definition"));
-                    }
-                }
-                else
-                {
-                    if (solvedStatus)
-                        VCHECK(c, nsol > 0, "C03/status-pdef-mismatch" + pkey, "%s returned %s on a resumed solve but the problem definition is empty", pi.name, statusName(st));
-                    if (st == ob::PlannerStatus::EXACT_SOLUTION)
-                        VCHECK(c, Q[cur].pdef->hasExactSolution(), "C03/exact-status-without-exact-solution" + pkey, "%s returned EXACT_SOLUTION but the best stored solution is approximate",
-                               pi.name);
-                }
-                VCHECK(c, st != ob::PlannerStatus::CRASH, "C03/status-CRASH" + pkey, "%s returned CRASH", pi.name);
-                if (nsol > 0)
-                {
-                    auto *pg = dynamic_cast<og::PathGeometric *>(Q[cur].pdef->getSolutionPath().get());
-                    VCHECK(c, pg && pg->getStateCount() > 0, "C03/empty-path" + pkey, "%s: reported solution is empty", pi.name);
-                    const ob::State *last = pg->getState(pg->getStateCount() - 1);
-                    bool approx = Q[cur].pdef->hasApproximateSolution();
-                    if (!approx && !Q[cur].pdef->getGoal()->isSatisfied(last))
-                        c.failOrKnown("C03/half-built-path" + pkey, vf::fmt("%s: solution not flagged approximate but its last state does not satisfy the goal (%zu states)", pi.name,
-                                                                            pg->getStateCount()));
-                    if (pg->getStateCount() == 1 && !approx)
-                        VCHECK(c, Q[cur].pdef->getGoal()->isSatisfied(last), "C03/one-state-solution" + pkey, "%s: 1-state solution whose state is not a goal", pi.name);
-                    PathVerdict v = checkPath(*P, *pg, pi.strictRecheck, true);
-                    if (!v.ok())
-                        c.failOrKnown("C03/" + v.key + pkey, vf::fmt("%s after history step %d: %s", pi.name, stp, v.msg.c_str()));
-                    // clear forgets: no state of the path may be a start/goal of the other query
-                    int other = 1 - cur;
-                    for (size_t i = 0; i < pg->getStateCount(); ++i)
-                        if (P->ps.space->equalStates(pg->getState(i), Q[other].start) || P->ps.space->equalStates(pg->getState(i), Q[other].goal))
-                        {
-                            // after clearQuery a roadmap may legitimately keep old query states as ordinary vertices, but never as an endpoint
-                            bool endpoint = i == 0 || i + 1 == pg->getStateCount();
-                            if (endpoint || cleanSinceQueryChange)
-                                c.failOrKnown("C03/stale-state" + pkey, vf::fmt("%s: path state %zu of %zu is a start/goal state of the previous query", pi.name, i,
-                                                                                pg->getStateCount()));
-                        }
-                    // resume monotonicity
-                    double len = pg->length();
-                    double diff = approx ? Q[cur].pdef->getSolutionDifference() : 0;
-                    if (resumed && havePrev)
-                    {
-                        if (prevExact)
-                        {
-                            VCHECK(c, !approx, "C03/resume-lost-exact" + pkey, "%s: the query had an exact solution, after another solve() the best one is approximate", pi.name);
-                            if (pi.optimizing)
-                                VCHECK(c, len <= prevLen * (1 + 1e-9) + 1e-9, "C03/resume-worse" + pkey, "%s: best solution length grew from %.9g to %.9g on a resumed solve", pi.name,
-                                       prevLen, len);
-                        }
-                        else if (approx)
-                            VCHECK(c, diff <= prevDiff * (1 + 1e-9) + 1e-9, "C03/resume-worse" + pkey, "%s: best approximate difference grew from %.9g to %.9g on a resumed solve",
-                                   pi.name, prevDiff, diff);
-                    }
-                    prevExact = !approx;
-                    prevLen = len;
-                    prevDiff = diff;
-                    havePrev = true;
-                }
-                if (pendingInterrupt)
-                    sawInterruptThenResumeOrClear = true;
-                pendingInterrupt = calls > 1 && !Q[cur].pdef->hasExactSolution();
-                if (pendingInterrupt)
-                    interruptedBeforeSolution = true;
-                solvedBefore = true;
+                solveStep(k, stp);
                 break;
             }
             case 1:
@@ -393,6 +407,15 @@ void vf::run_case(Src &s, Ctx &c)
                 havePrev = false;
                 break;
         }
+    }
+    // epilogue (decoded last, so that saved cases - which end before it - keep their meaning): a solve with a budget from the top of the range,
+    // i.e. usually up to a solution, then a short continued solve (which the k % 4 rule precedes by clearSolutionPaths() in a quarter of
+    // the cases). What a planner does on a continued solve *after* it has found a solution is rarely reached by the steps above.
+    if (s.chance(96))
+    {
+        c.count("history:epilogue(long solve, short continued solve)");
+        solveStep((long)(s.real(1200, 2500) * pi.budgetScale), steps);
+        solveStep((long)s.in(0, 63), steps + 1);
     }
     ntHistory = sawInterruptThenResumeOrClear;
     c.count(interruptedBeforeSolution ? "history:interrupted-before-solution" : "history:no-interrupt");
